@@ -733,6 +733,9 @@ def run(ctx):
         if bare and len(toks) >= 2:
             n_c += 1
             ctx.inst("C10.R7", "rule=%s#comment-at-line-end" % n, True if has_comment_alt else False, "rule %s has %d gap(s) that admit a bare line break%s" % (n, len(bare), " and reads comments in its gaps itself" if has_comment_alt else " but neither NEWLINE nor a comment alternative: a line break that follows an end-of-line comment is a parse error there, a bare one is not"), "blots-core/src/grammar.pest")
+    # a comment inside a layout gap runs to the end of its line whatever it contains
+    from rules import c09 as c09_
+    c09_.comment_to_line_end(ctx, "C10.R7", G)
     ctx.inst("C10.R7", "grammar#cascade-scan", True, "scanned %d rules; %d atomic-by-cascade rules with newline-only gaps" % (len(G.order), n7), "blots-core/src/grammar.pest")
 
 
